@@ -715,6 +715,9 @@ func main() {
 				if only != nil && (only.Part != "" && only.Part != "forward" || only.Skip || only.Mode != "" && only.Mode != mode.Name) {
 					continue
 				}
+				if only == nil && tier != "thorough" && spec.Space == "header" && mi%2 == 1 {
+					continue // quick: the header-shape messages (bodies of 0 or 5 bytes) run 4 of the 7 serialisations
+				}
 				if skipMode(mode, m, &v) {
 					continue
 				}
